@@ -18,6 +18,8 @@ from kdrv import OP, OT
 from kmip.core import enums
 from vlib import coqprint as cp
 
+HEADER_S = ('From PK Require Import Isolation.Session.\nFrom Coq Require Import List ZArith Bool String.\n'
+            'Import ListNotations.\nOpen Scope Z_scope.\nOpen Scope string_scope.\n')
 HEADER = ('From PK Require Import Isolation.Cases.\nFrom Coq Require Import List ZArith Bool String.\n'
           'Import ListNotations.\nOpen Scope Z_scope.\nOpen Scope string_scope.\n')
 
@@ -136,15 +138,29 @@ class XRunner(c07.Runner):
         self.coq.append(('XRestart', 'XB None %s %s' % (c07.zt(self.eng.next_uid()), cp.lst(self.eng.uids(), c07.zt))))
         self.ctx.count('event.restart')
 
-    def send(self, eng, conc, who, ver, cont, stamp, asynchronous, undo, ids):
+    def build_request(self, eng, conc, ver, cont, stamp, asynchronous, undo, ids, max_size):
         items = [c07.build_item(c, ver) for c in conc]
         t = eng.clock.t
         ts = {'absent': None, 'recent': t - 10, 'future': t + 100, 'stale': t - 1000}[stamp]
         opt = enums.BatchErrorContinuationOption.UNDO if undo else (enums.BatchErrorContinuationOption.CONTINUE if cont else None)
-        return eng.request(items, version=ver, user=USERS[who], groups=None, batch_option=opt, time_stamp=ts,
-                           asynchronous=asynchronous, ids=ids)
+        return eng.build(items, version=ver, batch_option=opt, time_stamp=ts, asynchronous=asynchronous, ids=ids, max_size=max_size)
 
-    def request(self, who, ver, cont, specs, stamp='absent', asynchronous=None, undo=False, ids=None):
+    def send(self, eng, conc, who, ver, cont, stamp, asynchronous, undo, ids, max_size=None, live=True):
+        req = self.build_request(eng, conc, ver, cont, stamp, asynchronous, undo, ids, max_size)
+        return eng.process(req, *c07.identity(who))
+
+    # hooks for the connection-level runner
+    def wrap(self, ev_term, out_term, r, next_uid, uids, max_size):
+        return ev_term, 'XB (Some %s) %s %s' % (out_term, c07.zt(next_uid), cp.lst(uids, c07.zt))
+
+    def error_out(self, r):
+        msg = r['error']['message']
+        code = ERRORS.get(msg) or ('EVersion' if msg.endswith('is not supported by the server.') else None)
+        if code is None:
+            raise RuntimeError('unclassified request-level error: %r' % (r['error'],))
+        return '(XErr %s)' % code, code
+
+    def request(self, who, ver, cont, specs, stamp='absent', asynchronous=None, undo=False, ids=None, max_size=None):
         eng, tr = self.eng, self.tr
         conc = []
         for s in specs:
@@ -162,7 +178,7 @@ class XRunner(c07.Runner):
         if self.fork:
             other = fork_engine(eng, self.ctx.work)
             self.forks += 1
-        r = self.send(eng, conc, who, ver, cont, stamp, asynchronous, undo, ids)
+        r = self.send(eng, conc, who, ver, cont, stamp, asynchronous, undo, ids, max_size, live=True)
         after_next, after_uids = eng.next_uid(), eng.uids()
         classes = []
         if r['error'] is None:
@@ -190,16 +206,12 @@ class XRunner(c07.Runner):
             'None' if asynchronous is None else '(Some %s)' % cp.boolean(asynchronous),
             cp.boolean(undo), cp.boolean(cont), cp.boolean(ids_ok), cp.lst(item_terms, str))
         if r['error'] is not None:
-            msg = r['error']['message']
-            code = ERRORS.get(msg) or ('EVersion' if msg.endswith('is not supported by the server.') else None)
-            if code is None:
-                raise RuntimeError('unclassified request-level error: %r' % (r['error'],))
-            out = '(XErr %s)' % code
+            out, code = self.error_out(r)
         else:
             out = '(XOk %s)' % cp.lst([xresp_term(cl) for cl in classes], str)
-        self.coq.append((ev, 'XB (Some %s) %s %s' % (out, c07.zt(after_next), cp.lst(after_uids, c07.zt))))
+        self.coq.append(self.wrap(ev, out, r, after_next, after_uids, max_size))
         self.events.append({'ev': 'req', 'who': who, 'ver': list(ver), 'cont': cont, 'stamp': stamp, 'async': asynchronous,
-                            'undo': undo, 'ids': ids, 'items': [c07.strip(c) for c in conc], 'error': r['error'],
+                            'undo': undo, 'ids': ids, 'max_size': max_size, 'items': [c07.strip(c) for c in conc], 'error': r['error'],
                             'next_uid': after_next, 'uids': after_uids})
         self.ctx.count('event.request')
         if r['error'] is not None:
@@ -210,13 +222,13 @@ class XRunner(c07.Runner):
             if cl[0] == 'RIssued':
                 ts_ = ['TPub', 'TPriv'] if c['op'] == 'ckp' else [c.get('t', 'TSym')]
                 for u, t in zip(cl[1], ts_):
-                    tr.issued(u, who, t, bool(c.get('rich')) or c['op'] == 'derive')
+                    tr.issued(u, who, t, bool(c.get('rich')) or c['op'] == 'derive', 1 if c.get('pol') else 0)
             if cl[0] == 'RDestroyed':
                 tr.destroyed.setdefault(cl[1], ev_index)
         # ---- the direct oracle: the fresh engine must answer the same and end in the same database state
         if other is not None:
             try:
-                r2 = self.send(other, conc, who, ver, cont, stamp, asynchronous, undo, ids)
+                r2 = self.send(other, conc, who, ver, cont, stamp, asynchronous, undo, ids, max_size, live=False)
                 issued = [u for cl in classes if cl[0] == 'RIssued' for u in cl[1]]
                 d = diff_answers(r, r2, issued) or diff_dumps(eng.dump(), other.dump(), issued)
                 if d:
@@ -226,10 +238,272 @@ class XRunner(c07.Runner):
                                       {'history': self.events[:ev_index + 1], 'probe_event': ev_index, 'difference': d},
                                       'request %d of the history (%s by %s, KMIP %d.%d) is answered differently by the live engine '
                                       'than by a fresh engine on a copy of the same database: %s' % (
-                                          ev_index, '+'.join(kinds), USERS[who], ver[0], ver[1], d['what'])))
+                                          ev_index, '+'.join(kinds), c07.who_name(who), ver[0], ver[1], d['what'])))
             finally:
                 other.close()
         return r, conc, classes
+
+
+# ------------------------------------------------------------------ connection level: a real KmipSession per connection
+SESSION_FIELDS_WRITTEN = set()          # KmipSession methods other than __init__ must not assign any attribute of self
+BAD_FRAME = b'\x42\x00\x78\x01\x00\x00\x00\x10' + b'\x42\x00\x69\x01\x00\x00\x00\x08' + b'\xde\xad\xbe\xef' * 2   # framed, not a request
+TOO_LARGE = 'Response message length too large. See server logs for more information.'
+PARSE_ERROR = 'Error parsing request message. See server logs for more information.'
+
+
+class Pipe:
+    """Stands in for the TLS socket of one client connection: feed() a frame, the session answers into sent."""
+    def __init__(self, cert_der):
+        self.buf = b''
+        self.sent = []
+        self.cert = cert_der
+
+    def feed(self, data):
+        self.buf += bytes(data)
+
+    def recv(self, n):
+        d, self.buf = self.buf[:n], self.buf[n:]
+        return d
+
+    def sendall(self, data):
+        self.sent.append(bytes(data))
+
+    def getpeercert(self, binary_form=False):
+        return self.cert
+
+    def cipher(self):
+        return ('ECDHE-RSA-AES256-GCM-SHA384', 'TLSv1.2', 256)
+
+    def shared_ciphers(self):
+        return [self.cipher()]
+
+
+def decode_response(data, ver):
+    from kmip.core import utils as kutils
+    from kmip.core.messages import messages as kmsg, contents as kcont
+    kv = kcont.protocol_version_to_kmip_version(kcont.ProtocolVersion(*ver)) or enums.KMIPVersion.KMIP_1_2
+    resp = kmsg.ResponseMessage()
+    resp.read(kutils.BytearrayStream(data), kmip_version=kv)
+    h = resp.response_header
+    return {'items': [kdrv.project_item(bi) for bi in resp.batch_items], 'raw': resp,
+            'version': (h.protocol_version.major, h.protocol_version.minor),
+            'header': {'version': (h.protocol_version.major, h.protocol_version.minor), 'batch_count': h.batch_count.value,
+                       'time_stamp': h.time_stamp.value}}
+
+
+class SessRunner(XRunner):
+    """XRunner whose requests travel as encoded frames through a real KmipSession per client connection; the fresh side of
+    every comparison is a NEW connection (new session object) to a fresh engine on a copy of the database."""
+
+    def __init__(self, ctx, eng, fork=True):
+        super().__init__(ctx, eng, fork=fork)
+        import sessdrv
+        self.sd = sessdrv
+        self.conns = {}            # who -> (conn id, session, pipe, proxy)
+        self.nconn = 0
+
+    def open_connection(self, eng, who):
+        from kmip.services.server import session as session_mod
+        import logging
+        proxy = self.sd.EngineProxy(eng)
+        pipe = Pipe(self.sd.make_cert([c07.identity(who)[0]], 'client'))
+        sess = session_mod.KmipSession(proxy, pipe, ('192.0.2.7', 5696), name='c11', enable_tls_client_auth=True, auth_settings=None)
+        sess._logger.setLevel(logging.CRITICAL + 1)
+        self.nconn += 1
+        return (self.nconn, sess, pipe, proxy)
+
+    def reconnect(self, who=None):
+        if who is None:
+            self.conns.clear()
+        else:
+            self.conns.pop(who, None)
+        self._recon = getattr(self, '_recon', []) + [who]
+        self.ctx.count('event.reconnect')
+
+    def request(self, who, ver, cont, specs, stamp='absent', asynchronous=None, undo=False, ids=None, max_size=None):
+        # a client can only send what its own encoder accepts: skip requests that cannot be encoded (nothing has happened yet)
+        conc = []
+        for s_ in specs:
+            c = dict(s_)
+            if 'tgt' in s_:
+                c['tgt_uid'] = self.resolve(s_['tgt'])
+            if 'w' in s_:
+                c['w_uid'] = self.resolve(s_['w'])
+            if 'bases' in s_:
+                c['base_uids'] = [self.resolve(b) for b in s_['bases']]
+            conc.append(c)
+        try:
+            self.sd.encode_request(self.build_request(self.eng, conc, ver, cont, stamp, asynchronous, undo, ids, max_size), ver)
+        except Exception as e:
+            self.ctx.count('skipped.unencodable.%s' % type(e).__name__)
+            return None
+        out = super().request(who, ver, cont, specs, stamp=stamp, asynchronous=asynchronous, undo=undo, ids=ids, max_size=max_size)
+        self.events[-1]['reconnect_before'] = getattr(self, '_recon', [])
+        self._recon = []
+        return out
+
+    def restart(self, dispose=True):
+        self.conns.clear()
+        if dispose:
+            try:
+                self.eng.engine._data_store.dispose()
+            except Exception:
+                pass
+        self.eng.restart()
+        self.events.append({'ev': 'restart'})
+        self.coq.append(('SRestartAll', 'SO None %s %s' % (c07.zt(self.eng.next_uid()), cp.lst(self.eng.uids(), c07.zt))))
+        self.ctx.count('event.restart')
+
+    def exchange(self, eng, who, frame, ver, live):
+        """One frame through a session; returns the r dict the engine-level runner expects (items/error as the ENGINE
+        answered, so that bookkeeping works) plus r['session'] = what the client finally received."""
+        from kmip.services.server import engine as engine_mod
+        if live:
+            if who not in self.conns:
+                self.conns[who] = self.open_connection(eng, who)
+            cid, sess, pipe, proxy = self.conns[who]
+        else:
+            cid, sess, pipe, proxy = self.open_connection(eng, who)
+        engine_mod.time = eng.clock
+        ncalls, nsent = len(proxy.calls), len(pipe.sent)
+        pipe.feed(frame)
+        escaped = None
+        try:
+            sess._handle_message_loop()
+        except Exception as e:                  # KmipSession.run logs it and goes on: the client gets nothing for this message
+            escaped = type(e).__name__
+            pipe.buf = b''
+        if escaped is None and len(pipe.sent) != nsent + 1:
+            raise RuntimeError('the session sent %d messages for one frame' % (len(pipe.sent) - nsent))
+        data = pipe.sent[-1] if len(pipe.sent) > nsent else b''
+        try:
+            final = decode_response(data, ver)
+            fin = [{k: v for k, v in it.items() if k != 'raw'} for it in final['items']]
+        except Exception:
+            final, fin = None, data.hex()
+        call = proxy.calls[ncalls] if len(proxy.calls) > ncalls else None
+        outcome = 'answer'
+        if escaped is not None:
+            outcome = 'escaped'
+            fin = 'the session raised %s; %d bytes sent' % (escaped, len(data))
+        elif final is not None and len(final['items']) == 1 and final['items'][0]['op'] is None:
+            m = final['items'][0]['message']
+            outcome = 'toolarge' if m == TOO_LARGE else ('invalid' if m == PARSE_ERROR and call is None else 'answer')
+        r = {'error': None, 'items': [], 'raw': None, 'max_size': None, 'version': None, 'header': None}
+        englen = 0
+        if call is None:
+            it = final['items'][0] if final is not None and final['items'] else {}
+            r['error'] = {'reason': it.get('reason'), 'message': it.get('message') or ('no answer: ' + str(fin)), 'status': it.get('status')}
+        elif call.get('kind') == 'kmiperr':
+            r['error'] = {'reason': call['reason'].name, 'message': call['message'], 'status': 'OPERATION_FAILED'}
+        elif call.get('kind') == 'resp' and call.get('bytes') is not None:
+            eng_r = decode_response(call['bytes'], call['version'])
+            r.update(items=eng_r['items'], header=eng_r['header'], version=eng_r['version'], max_size=call['max_size'])
+            englen = len(call['bytes'])
+        else:
+            raise RuntimeError('engine call ended as %r' % (call.get('kind'),))
+        r['session'] = {'outcome': outcome, 'final': fin, 'final_len': len(data), 'conn': cid, 'engine_len': englen}
+        return r
+
+    def send(self, eng, conc, who, ver, cont, stamp, asynchronous, undo, ids, max_size=None, live=True):
+        req = self.build_request(eng, conc, ver, cont, stamp, asynchronous, undo, ids, max_size)
+        return self.exchange(eng, who, self.sd.encode_request(req, ver), ver, live)
+
+    def error_out(self, r):
+        if r['session']['outcome'] == 'invalid':
+            return 'SInvalid', 'Invalid'
+        if r['session']['outcome'] == 'escaped':
+            return '(XErr EVersion)', 'SessionRaised'        # no model outcome for "no answer at all": will disagree, as it must
+        return super().error_out(r)
+
+    def wrap(self, ev_term, out_term, r, next_uid, uids, max_size):
+        se = r['session']
+        who = ev_term.split()[1]
+        self.ctx.count('session.outcome.' + se['outcome'])
+        if se['outcome'] == 'invalid':
+            ev = 'SBadF %d %s' % (se['conn'], who)
+            out = 'SInvalid'
+        else:
+            ev = 'SF %d (%s) %s %d' % (se['conn'], ev_term, 'None' if max_size is None else '(Some %d)' % max_size, se['engine_len'])
+            out = 'STooLarge' if se['outcome'] == 'toolarge' else '(SAnswer %s)' % out_term
+        return ev, 'SO (Some %s) %s %s' % (out, c07.zt(next_uid), cp.lst(uids, c07.zt))
+
+    def bad_frame(self, who):
+        """An undecodable message on the connection of `who`."""
+        other = fork_engine(self.eng, self.ctx.work) if self.fork else None
+        r = self.exchange(self.eng, who, BAD_FRAME, (1, 2), True)
+        if other is not None:
+            try:
+                self.forks += 1
+                r2 = self.exchange(other, who, BAD_FRAME, (1, 2), False)
+                d = diff_answers(r, r2)
+                if d:
+                    self.events.append({'ev': 'bad_frame', 'who': who, 'final': r['session']['final'],
+                                        'reconnect_before': getattr(self, '_recon', [])})
+                    self.hits.append(({'kind': 'live-differs-from-fresh', 'ops': ['undecodable-message']},
+                                      {'history': list(self.events), 'probe_event': len(self.events) - 1, 'difference': d},
+                                      'an undecodable message is answered differently by the live engine than by a fresh engine '
+                                      'on a copy of the same database: %s' % d['what']))
+                    self.events.pop()
+            finally:
+                other.close()
+        self.coq.append(('SBadF %d %d' % (r['session']['conn'], who),
+                         'SO (Some %s) %s %s' % ('SInvalid' if r['session']['outcome'] == 'invalid' else '(SAnswer (XErr EVersion))',
+                                                 c07.zt(self.eng.next_uid()), cp.lst(self.eng.uids(), c07.zt))))
+        self.events.append({'ev': 'bad_frame', 'who': who, 'final': r['session']['final'], 'reconnect_before': getattr(self, '_recon', [])})
+        self._recon = []
+        self.ctx.count('event.bad_frame')
+
+
+def class_mutable_fields(repo, path, cls_name):
+    """engine_mutable_fields for any class (used for KmipSession)."""
+    import ast
+    from pathlib import Path
+    tree = ast.parse((Path(repo) / path).read_text())
+    cls = [n for n in tree.body if isinstance(n, ast.ClassDef) and n.name == cls_name]
+    if len(cls) != 1:
+        raise ValueError('class %s not found' % cls_name)
+    found = {}
+    for fn in ast.walk(cls[0]):
+        if not isinstance(fn, (ast.FunctionDef, ast.AsyncFunctionDef)) or fn.name == '__init__':
+            continue
+        for node in ast.walk(fn):
+            tgts = []
+            if isinstance(node, ast.Assign):
+                tgts = list(node.targets)
+            elif isinstance(node, (ast.AugAssign, ast.AnnAssign)):
+                tgts = [node.target]
+            elif isinstance(node, ast.Call) and isinstance(node.func, ast.Name) and node.func.id == 'setattr':
+                tgts = [ast.Attribute(value=node.args[0], attr='<setattr>', ctx=ast.Store())] if node.args else []
+            flat = []
+            for t in tgts:
+                flat += list(t.elts) if isinstance(t, (ast.Tuple, ast.List)) else [t]
+            for t in flat:
+                while isinstance(t, ast.Subscript):
+                    t = t.value
+                if isinstance(t, ast.Attribute) and isinstance(t.value, ast.Name) and t.value.id == 'self':
+                    found.setdefault(t.attr, node.lineno)
+    return found
+
+
+def process_request_is_synchronized(repo):
+    """process_request, the only writer of the engine's transient fields besides the handlers it calls, must run under
+    the engine lock as a whole: decorated with _synchronize, whose body is `with self._lock:`."""
+    import ast
+    from pathlib import Path
+    tree = ast.parse((Path(repo) / 'kmip/services/server/engine.py').read_text())
+    cls = [n for n in tree.body if isinstance(n, ast.ClassDef) and n.name == 'KmipEngine'][0]
+    fns = {n.name: n for n in cls.body if isinstance(n, ast.FunctionDef)}
+    pr, sy = fns.get('process_request'), fns.get('_synchronize')
+    if pr is None or sy is None:
+        return 'process_request or _synchronize not found'
+    if not any(isinstance(d, ast.Name) and d.id == '_synchronize' for d in pr.decorator_list):
+        return 'process_request is not decorated with _synchronize (decorators: %s)' % [ast.dump(d)[:40] for d in pr.decorator_list]
+    inner = [n for n in ast.walk(sy) if isinstance(n, ast.With)]
+    ok = any(isinstance(i.context_expr, ast.Attribute) and i.context_expr.attr == '_lock' for w in inner for i in w.items)
+    if not ok:
+        return '_synchronize does not take self._lock'
+    return None
 
 
 def xresp_term(cl):
@@ -255,7 +529,10 @@ def fork_engine(eng, work):
 
 def proj(r, issued=()):
     if r['error'] is not None:
-        return {'error': r['error']}
+        out = {'error': r['error']}
+        if 'session' in r:
+            out['session'] = {k: r['session'][k] for k in ('outcome', 'final_len', 'final')}
+        return out
     items = []
     for it in r['items']:
         it = {k: v for k, v in it.items() if k != 'raw'}
@@ -265,7 +542,11 @@ def proj(r, issued=()):
             # from that material (Get, Encrypt, MAC, Sign ...) legitimately differs between two engines
             it['payload'] = {'_class': p.get('_class'), 'unique_identifier': p.get('unique_identifier'), 'masked': 'computed from generated key material'}
         items.append(it)
-    return {'error': None, 'header': r['header'], 'version': r['version'], 'max_size': r['max_size'], 'items': items}
+    out = {'error': None, 'header': r['header'], 'version': r['version'], 'max_size': r['max_size'], 'items': items}
+    if 'session' in r:
+        se = r['session']
+        out['session'] = {'outcome': se['outcome'], 'final_len': se['final_len'], 'final': se['final'] if not issued else '<masked>'}
+    return out
 
 
 def diff_answers(r1, r2, issued=()):
@@ -275,7 +556,9 @@ def diff_answers(r1, r2, issued=()):
         return None
     if a.get('error') != b.get('error'):
         return {'what': 'request-level outcome differs', 'live': a.get('error'), 'fresh': b.get('error')}
-    for k in ('header', 'version', 'max_size'):
+    if a.get('error') is not None:
+        return {'what': 'what the client received differs', 'live': clip(a.get('session')), 'fresh': clip(b.get('session'))}
+    for k in ('header', 'version', 'max_size', 'session'):
         if a.get(k) != b.get(k):
             return {'what': '%s differs' % k, 'live': a.get(k), 'fresh': b.get(k)}
     for i, (x, y) in enumerate(zip(a['items'], b['items'])):
@@ -340,14 +623,14 @@ def gen_history(ctx, rng, run, length, ckp_budget):
         ver = c07.pick_version(rng)
         if x < 0.34:                                   # a creating request, then identifier-less probes as requests of their own
             ctx.count('pattern.create_then_idless_probes')
-            who = rng.randrange(3)
+            who = c07.pick_who(rng)
             items = [creating()]
             if rng.random() < 0.3:                     # legitimate use of the placeholder inside the same batch
                 items += [idless(rng) for _ in range(rng.randrange(1, 3))]
             run.request(who, ver, rng.random() < 0.5, items)
             n += 1
             for _ in range(rng.randrange(1, 4)):
-                pw = who if rng.random() < 0.6 else rng.randrange(3)
+                pw = who if rng.random() < 0.6 else c07.pick_who(rng)
                 run.request(pw, c07.pick_version(rng), False, [idless(rng)])
                 n += 1
         elif x < 0.46:                                 # attribute list of a live object under another protocol version
@@ -375,21 +658,21 @@ def gen_history(ctx, rng, run, length, ckp_budget):
             else:
                 items = [creating(), idless(rng)]
                 kw = {'ids': False}
-            run.request(rng.randrange(3), ver, rng.random() < 0.5, items, **kw)
+            run.request(c07.pick_who(rng), ver, rng.random() < 0.5, items, **kw)
             n += 1
-            run.request(rng.randrange(3), c07.pick_version(rng), False, [idless(rng)])
+            run.request(c07.pick_who(rng), c07.pick_version(rng), False, [idless(rng)])
             n += 1
         elif x < 0.78:
             tgt = c07.gen_target(rng, tr, allow_none=True, dead_bias=0.1)
             run.request(c07.owner_of(tr, eng, tgt, rng), ver, False, [{'op': 'destroy', 'tgt': tgt}])
             n += 1
         elif x < 0.84:
-            run.request(rng.randrange(3), ver, False, [{'op': 'locate'}])
+            run.request(c07.pick_who(rng), ver, False, [{'op': 'locate'}])
             n += 1
         elif x < 0.90:
             ctx.count('pattern.restart')
             run.restart(dispose=rng.random() < 0.5)
-            run.request(rng.randrange(3), ver, False, [idless(rng)])
+            run.request(c07.pick_who(rng), ver, False, [idless(rng)])
             n += 2
         else:                                          # mixed batch
             items = []
@@ -403,7 +686,7 @@ def gen_history(ctx, rng, run, length, ckp_budget):
                     items.append({'op': 'locate'})
                 else:
                     items.append({'op': 'addr', 'k': rng.choice(c07.KINDS), 'tgt': c07.gen_target(rng, tr), 'variant': rng.randrange(4)})
-            run.request(rng.randrange(3), ver, rng.random() < 0.6, items)
+            run.request(c07.pick_who(rng), ver, rng.random() < 0.6, items)
             n += 1
 
 
@@ -438,6 +721,92 @@ def scenarios():
     return out
 
 
+# ------------------------------------------------------------------ connection-level histories
+SMALL = [40, 120, 200, 260, 400, 2000]
+
+
+def conn_scenarios():
+    C = {'op': 'create', 'good': True, 'rich': True}
+    G = lambda t, k='AGet': {'op': 'addr', 'k': k, 'tgt': t}
+    L = {'op': 'locate'}
+    out = []
+    # an earlier message with a small Maximum Response Size, then the probe without one (same connection)
+    for m in SMALL:
+        out.append([('req', 0, (1, 2), False, [C], {}), ('req', 0, (1, 2), False, [L], {'max_size': m}),
+                    ('req', 0, (1, 2), False, [G(['ref', 0])], {}), ('req', 0, (1, 2), False, [G(['ref', 0])], {'max_size': m}),
+                    ('req', 0, (1, 2), False, [G(['ref', 0], 'AGetAttributes')], {}), ('req', 0, (1, 4), False, [L], {})])
+    # two connections, undecodable messages, failing requests, reconnect, restart
+    out.append([('req', 0, (1, 2), False, [C], {}), ('req', 1, (1, 2), False, [C], {'max_size': 150}),
+                ('req', 0, (1, 2), False, [G(['ref', 0])], {'max_size': 60}), ('req', 1, (1, 2), False, [G(['ref', 1])], {}),
+                ('bad', 0), ('req', 0, (1, 2), False, [G(['ref', 0])], {}),
+                ('req', 0, (1, 2), False, [L], {'max_size': 100, 'asynchronous': True}), ('req', 0, (1, 2), False, [G(['ref', 0])], {}),
+                ('req', 0, (1, 2), False, [L], {'max_size': 100, 'stamp': 'stale'}), ('req', 0, (1, 2), False, [G(['ref', 0])], {}),
+                ('reconnect', 0), ('req', 0, (1, 2), False, [G(['ref', 0])], {}),
+                ('req', 0, (1, 2), False, [C], {'max_size': 10}), ('req', 0, (1, 2), False, [L], {}),
+                ('restart',), ('req', 0, (1, 2), False, [G(['ref', 0])], {})])
+    # versions
+    sc = [('req', 0, (1, 2), False, [C], {})]
+    for v in kdrv.VERSIONS:
+        sc += [('req', 0, v, False, [L], {'max_size': 200}), ('req', 0, v, False, [G(['ref', 0], 'AGetAttributeList')], {}),
+               ('req', 0, (1, 2), False, [G(['ref', 0])], {})]
+    out.append(sc)
+    return out
+
+
+def play_conn(run, script):
+    for ev in script:
+        if ev[0] == 'restart':
+            run.restart()
+        elif ev[0] == 'bad':
+            run.bad_frame(ev[1])
+        elif ev[0] == 'reconnect':
+            run.reconnect(ev[1])
+        else:
+            _, who, ver, cont, specs, kw = ev
+            run.request(who, tuple(ver), cont, [dict(s) for s in specs], **kw)
+
+
+def gen_conn_history(ctx, rng, run, length):
+    tr, eng = run.tr, run.eng
+    n = 0
+    while n < length:
+        x = rng.random()
+        who = rng.randrange(3)
+        ver = c07.pick_version(rng)
+        kw = {}
+        if rng.random() < 0.35:
+            kw['max_size'] = rng.choice(SMALL + [1, 100000])
+        if x < 0.22:
+            s_ = c07.gen_create_spec(rng, tr, cheap=True)
+            run.request(who, ver, False, [s_], **kw)
+        elif x < 0.62:                                 # read something (the answers that can be too large)
+            tgt = c07.gen_target(rng, tr, allow_none=False, dead_bias=0.05)
+            w = c07.owner_of(tr, eng, tgt, rng) % 100 % 3
+            k = rng.choice(['AGet', 'AGet', 'AGetAttributes', 'AGetAttributeList'])
+            run.request(w, ver, False, [{'op': 'addr', 'k': k, 'tgt': tgt}], **kw)
+        elif x < 0.70:
+            run.request(who, ver, False, [{'op': 'locate'}], **kw)
+        elif x < 0.78:                                 # requests that end early, with a limit in the header
+            y = rng.random()
+            if y < 0.4:
+                kw['asynchronous'] = True
+            elif y < 0.7:
+                kw['stamp'] = rng.choice(['stale', 'future'])
+            else:
+                kw['undo'] = True
+            run.request(who, ver, False, [{'op': 'locate'}], **kw)
+        elif x < 0.86:
+            run.bad_frame(who)
+        elif x < 0.92:
+            run.reconnect(rng.choice([None, who]))
+            continue
+        elif x < 0.95:
+            run.restart(dispose=rng.random() < 0.5)
+        else:
+            run.request(who, ver, True, [c07.gen_create_spec(rng, tr, cheap=True), {'op': 'locate'}], **kw)
+        n += 1
+
+
 def play(run, script):
     for ev in script:
         if ev[0] == 'restart':
@@ -449,21 +818,25 @@ def play(run, script):
 
 def replay_events(run, events):
     for ev in events:
+        for w in ev.get('reconnect_before') or []:
+            run.reconnect(w)
         if ev['ev'] == 'restart':
             run.restart()
+        elif ev['ev'] == 'bad_frame':
+            run.bad_frame(ev['who'])
         else:
-            specs = [{k: v for k, v in it.items() if k in ('op', 'good', 'rich', 't', 'bases', 'tgt', 'w', 'k', 'variant')}
+            specs = [{k: v for k, v in it.items() if k in ('op', 'good', 'rich', 't', 'bases', 'tgt', 'w', 'k', 'variant', 'pol')}
                      for it in ev['items']]
             run.request(ev['who'], tuple(ev['ver']), ev['cont'], specs, stamp=ev.get('stamp', 'absent'),
-                        asynchronous=ev.get('async'), undo=ev.get('undo', False), ids=ev.get('ids'))
+                        asynchronous=ev.get('async'), undo=ev.get('undo', False), ids=ev.get('ids'), max_size=ev.get('max_size'))
 
 
-def shrink(ctx, events):
+def shrink(ctx, events, runner=None):
     """Drop prefix events (latest first) while the last request is still answered differently by live and fresh."""
     def fails(evs):
-        eng = kdrv.Engine(workdir=ctx.work)
+        eng = c07.new_engine(ctx.work)
         try:
-            run = XRunner(c07.NullCtx(ctx.work), eng, fork=False)
+            run = (runner or XRunner)(c07.NullCtx(ctx.work), eng, fork=False)
             try:
                 replay_events(run, evs[:-1])
                 run.fork = True
@@ -504,7 +877,7 @@ def run(ctx):
         'PRESENT table of harness/c11.py (attribute names a creating template leaves set) - an input of the model, checked by K',
         'coq/gen/AttrRuleTable.v regenerated from kmip/services/server/policy.py (tie T) for version-dependent attribute visibility']
     ctx.regen(only=['attrrules'])
-    ctx.prove('props/C11.v', extra_targets=['theories/Isolation/Cases.v'])
+    ctx.prove('props/C11.v')
     try:
         fields = engine_mutable_fields(ctx.repo)
         ctx.cov['engine_fields_written_outside_init'] = fields
@@ -515,11 +888,24 @@ def run(ctx):
         ctx.broken.append({'kind': 'translation', 'name': 'KmipEngine mutable fields vs Isolation.Model.transient',
                            'detail': repr(e), 'candidates': []})
 
+    try:
+        sf = class_mutable_fields(ctx.repo, 'kmip/services/server/session.py', 'KmipSession')
+        ctx.cov['session_fields_written_outside_init'] = sf
+        if set(sf) != SESSION_FIELDS_WRITTEN:
+            raise ValueError('KmipSession methods write %r; the session model (Isolation/Session.v) has none of its fields written' % sorted(sf))
+        why = process_request_is_synchronized(ctx.repo)
+        ctx.cov['process_request_under_engine_lock'] = why is None
+        if why:
+            raise ValueError(why)
+    except Exception as e:
+        ctx.broken.append({'kind': 'translation', 'name': 'KmipSession fields / engine lock vs Isolation model',
+                           'detail': repr(e), 'candidates': []})
+
     histories, all_hits = [], []
     forks = [0]
 
     def one(script=None, seed_name=None, length=0):
-        eng = kdrv.Engine(workdir=ctx.work)
+        eng = c07.new_engine(ctx.work)
         try:
             run_ = XRunner(ctx, eng)
             if script is not None:
@@ -557,6 +943,60 @@ def run(ctx):
         where = ctx.model_output(HEADER, 'xfirst_bad %s' % histories[i][0])
         ctx.disagreement('histories', {'history_index': i, 'first_bad_event': where, 'events': histories[i][1][:60]},
                          model_says=ctx.model_output(HEADER, 'xmodel_trace %s' % histories[i][0])[:3000])
+    # ---- connection level: the same comparison with a real KmipSession per connection
+    conn_cases, conn_hits = [], []
+
+    def one_conn(script=None, seed_name=None, length=0):
+        eng = c07.new_engine(ctx.work)
+        try:
+            run_ = SessRunner(ctx, eng)
+            if script is not None:
+                play_conn(run_, script)
+            else:
+                gen_conn_history(ctx, ctx.subrng(seed_name), run_, length)
+            conn_cases.append((cp.lst(['(%s, %s)' % p_ for p_ in run_.coq], str), run_.events))
+            forks[0] += run_.forks
+            for ev, (evt, obt) in zip(run_.events, run_.coq):
+                ctx.case_seen(('conn', evt, obt), nontrivial=ev['ev'] != 'restart')
+        finally:
+            if 'run_' in locals():
+                conn_hits.extend(run_.hits)
+            eng.close()
+
+    def guarded(**kw):
+        try:
+            one_conn(**kw)
+        except Exception as e:
+            import traceback
+            ctx.broken.append({'kind': 'correspondence', 'name': 'connections',
+                               'detail': 'connection-level driver raised: ' + traceback.format_exc()[-1500:], 'candidates': []})
+
+    for sc in conn_scenarios():
+        guarded(script=sc)
+    for k in range(20 if quick else 150):
+        guarded(seed_name='conn%d' % k, length=ctx.subrng('clen%d' % k).randrange(8, 30))
+    ctx.count('probe.live_vs_fresh_comparisons_incl_connections', forks[0])
+    ctx.log('ran %d connection-level histories, %d events' % (len(conn_cases), sum(len(e) for _, e in conn_cases)))
+    bad = ctx.run_cases('connections', HEADER_S, [h for h, _ in conn_cases], 'scheck_history', shard=25,
+                        what='Isolation.Session.handle_message vs a real KmipSession per connection over the live engine: invalid / too large '
+                             '/ answered, and the answer as at engine level')
+    for i in bad[:10]:
+        where = ctx.model_output(HEADER_S, 'sfirst_bad %s' % conn_cases[i][0])
+        ctx.disagreement('connections', {'history_index': i, 'first_bad_event': where, 'events': conn_cases[i][1][:60]})
+    for k, (sig, w, what) in enumerate(conn_hits):
+        sig = dict(sig, level='connection')
+        what = what.replace('by the live engine than by a fresh engine on a copy of the same database',
+                            'on the live connection than on a new connection to a fresh engine on a copy of the same database')
+        if k == 0:
+            try:
+                got = shrink(ctx, w['history'], runner=SessRunner)
+                if got is not None:
+                    n0 = len(w['history'])
+                    w = dict(got[1], shrunk_from=n0)
+            except Exception as e:
+                w = dict(w, shrink_error=repr(e))
+        ctx.violation(sig, dict(w, level='connection'), what)
+
     first = True
     for sig, w, what in all_hits:
         if first:
@@ -582,14 +1022,18 @@ def replay(ctx, data):
     if not events:
         print('replay file holds no history')
         return 2
-    eng = kdrv.Engine(workdir=ctx.work)
+    eng = c07.new_engine(ctx.work)
     try:
-        run_ = XRunner(c07.NullCtx(ctx.work), eng)
+        conn_level = w.get('level') == 'connection'
+        run_ = (SessRunner if conn_level else XRunner)(c07.NullCtx(ctx.work), eng)
         replay_events(run_, events)
         for sig, wit, what in run_.hits:
             print('REPRODUCED:', what)
         text = cp.lst(['(%s, %s)' % p for p in run_.coq], str)
-        ok, out, err = ctx.coq_eval('replay', HEADER + 'Eval vm_compute in (xcheck_history %s, xfirst_bad %s).\n' % (text, text))
+        if conn_level:
+            ok, out, err = ctx.coq_eval('replay', HEADER_S + 'Eval vm_compute in (scheck_history %s, sfirst_bad %s).\n' % (text, text))
+        else:
+            ok, out, err = ctx.coq_eval('replay', HEADER + 'Eval vm_compute in (xcheck_history %s, xfirst_bad %s).\n' % (text, text))
         print('model agrees with the live engine on this history:', ' '.join(out.split()) if ok else err[-400:])
         return 1 if run_.hits or 'false' in out else 0
     finally:
